@@ -106,7 +106,7 @@ def gen_cases(tier: str, verif_seed: int, runs: int | None = None) -> list[dict]
                     val = VALUES[(rep + len(cases)) % 3] if tier == "quick" else p.choice(VALUES)
                     src = p.choice(["df", "df", "hdf5", "fits", "parquet"])
                     cases.append(_base(p, w, source=src, fault=dict(kind="nonfinite", column=col, value=val, pos=pos, offset=p.below(50))))
-                for val in (-1, 32768, 40000):
+                for val in (-1, 32768, 40000, 65536, 65536 * 3 + 7):
                     p = prng()
                     c = _base(p, w, fault=dict(kind="pid_range", value=val, pos=pos, offset=p.below(50)))
                     c["patch"]["mode"] = "divide"
